@@ -50,6 +50,8 @@ type Stream struct {
 
 	Out         [][]byte // messages written (only lengths and first bytes kept when KeepOut false)
 	OutLens     []int
+	OutAt       []time.Duration
+	OutHead     [][]byte // first 8 bytes of every message written
 	KeepOut     bool
 	Buffered    uint64
 	MaxBuffered uint64
@@ -57,10 +59,10 @@ type Stream struct {
 	onLow       func()
 	LowEvents   int
 
-	ShortReads int // Reads whose buffer was smaller than the pending message (the message is lost, as in pion/sctp)
-	Delivered  [][]byte
-	Calls      []Call
-	LogCalls   bool
+	ShortReads     int // Reads whose buffer was smaller than the pending message (the message is lost, as in pion/sctp)
+	Delivered      [][]byte
+	Calls          []Call
+	LogCalls       bool
 	ReadAfterClose int
 	// PeerWaiters lets a harness thread block until something was written
 	Writes int
@@ -167,6 +169,12 @@ func (s *Stream) Write(p []byte) (int, error) {
 	}
 	s.Writes++
 	s.OutLens = append(s.OutLens, len(p))
+	s.OutAt = append(s.OutAt, now())
+	hd := p
+	if len(hd) > 8 {
+		hd = hd[:8]
+	}
+	s.OutHead = append(s.OutHead, append([]byte{}, hd...))
 	if s.KeepOut {
 		s.Out = append(s.Out, append([]byte{}, p...))
 	}
